@@ -1285,6 +1285,65 @@ theorem toString_layout (pr : Prims) (k : XKey) (h : WF k) :
   rw [e]
 
 
+/-! ### whole paths of private derivations -/
+
+/-- if BIP-0032 defines the key at the end of a path and the code derives one, they agree
+(scalar, chain code) and the depth has grown by the length of the path -/
+theorem foldlM_child_priv_spec (pr : Prims) (ok : PrimsOK pr) (is : List Nat) (k c : XKey) (kn : Nat)
+    (cn : Bytes) (h : WF k) (hp : k.isPrivate = true) (hi : ∀ i ∈ is, i < 2 ^ 32)
+    (hm : is.foldlM (child pr) k = .ok c)
+    (hs : Spec.Bip32.ckdPrivPath pr.hmac512 (beNat k.key, k.chainCode) is = some (kn, cn)) :
+    beNat c.key = kn ∧ c.chainCode = cn ∧ c.depth = k.depth + is.length ∧ c.isPrivate = true ∧ WF c := by
+  induction is generalizing k with
+  | nil =>
+    injection hm with hm; subst hm
+    simp only [Spec.Bip32.ckdPrivPath, Option.some.injEq, Prod.mk.injEq] at hs
+    exact ⟨hs.1, hs.2, rfl, hp, h⟩
+  | cons i is ih =>
+    rw [List.foldlM_cons] at hm
+    cases hk : child pr k i with
+    | error e => rw [hk] at hm; cases hm
+    | ok k1 =>
+      rw [hk] at hm
+      have hi0 : i < 2 ^ 32 := hi i (by simp)
+      simp only [Spec.Bip32.ckdPrivPath] at hs
+      cases hc : Spec.Bip32.ckdPriv pr.hmac512 (beNat k.key) k.chainCode i with
+      | none => rw [hc] at hs; cases hs
+      | some kc' =>
+        rw [hc] at hs
+        obtain ⟨ki, ci⟩ := kc'
+        -- the spec child is non-zero and equals the model child
+        obtain ⟨IL, _, _, hkey⟩ := child_priv_key pr k k1 i h hp hi0 hk
+        obtain ⟨e1, _, e3, e4, _⟩ := child_depth pr k k1 i hk
+        have hd : k.depth ≠ 255 := by
+          intro e; rw [child_depth_255 pr k i e] at hk; cases hk
+        have hk' := hk
+        rw [child_priv_eq pr k i h hp hd hi0] at hk'
+        unfold Spec.Bip32.ckdPriv at hc
+        simp only [] at hk' hc
+        split at hk'
+        · cases hk'
+        · injection hk' with hk'
+          split at hc
+          · cases hc
+          · rename_i hcond
+            injection hc with hc; injection hc with c1 c2
+            have hkn : beNat k1.key = ki := by rw [← hk', ← c1]; exact beNat_natBE _
+            have hcc : k1.chainCode = ci := by rw [← hk', ← c2]
+            have hp1 : k1.isPrivate = true := e3.trans hp
+            have hnz : ki ≠ 0 := by
+              intro e; apply hcond; right; rw [c1]; exact e
+            have hw1 : WF k1 := by
+              apply child_WF pr ok k k1 i h hi0 hk
+              rintro (⟨_, e⟩ | ⟨e, _⟩)
+              · apply hnz; rw [← hkn, e]; rfl
+              · rw [hp1] at e; cases e
+            have := ih k1 hw1 hp1 (fun j hj => hi j (List.mem_cons_of_mem _ hj)) hm
+              (by rw [hkn, hcc]; exact hs)
+            obtain ⟨r1, r2, r3, r4, r5⟩ := this
+            exact ⟨r1, r2, by rw [r3, e1, List.length_cons]; omega, r4, r5⟩
+
+
 end GoBk.Bip32
 
 #print axioms GoBk.Bip32.fromString_toString
